@@ -314,7 +314,8 @@ type Stats struct {
 	KindsUsed                                    map[string]int
 	MultiBlockTxns, ReuseAfterDelete, YoungCols  int
 	Restores, Replicas, Keyed, Seeded, Tall      int
-	Nested, LateIndexes, DroppedCols             int
+	Nested, LateIndexes, DroppedCols, KeyProbes  int
+	SortProbes, SortProbesNoReuse                int
 	WritesByKind                                 map[string]int
 	FailedInserts, EmittedCommits, TriggerEvents int
 	IdViolations                                 []string
@@ -2071,6 +2072,150 @@ func runCaseHooked(seed uint64, idx int, prof Profile, stats *Stats, cur *atomic
 	if prof.ReplicaPct > 0 {
 		w.doReplicaCheck()
 	}
+	if w.keyed {
+		w.keyProbe()
+	}
+	if prof.ForceSorted {
+		w.sortProbe()
+	}
 	stats.Cases++
 	return "[" + strings.Join(w.steps, ";\n  ") + "]", w.notes, ""
+}
+
+
+var errProbe = errors.New("probe: the row exists already")
+
+// keyProbe (end of a keyed history, model-free): UpsertKey of an EXISTING key whose callback refuses
+// rows that already hold a value ("initialise once") must fail and change nothing - one live row
+// holds the key before and after, Count stays, the lookup still reaches the same row
+func (w *World) keyProbe() {
+	if w.keyCol == nil {
+		return
+	}
+	rows, keys, count0 := w.dump(w.coll)
+	var ks []string
+	for k := range keys {
+		ks = append(ks, k)
+	}
+	sort.Strings(ks)
+	probed := 0
+	for _, k := range ks {
+		if probed >= 3 {
+			break
+		}
+		off := keys[k]
+		obs, live := rows[off]
+		if !live {
+			continue
+		}
+		var col *Col
+		for i := range w.cols {
+			if _, has := obs.vals[w.cols[i].ID]; has && w.cols[i].K != KKey {
+				col = &w.cols[i]
+				break
+			}
+		}
+		if col == nil {
+			continue
+		}
+		probed++
+		w.stats.KeyProbes++
+		err := w.coll.UpsertKey(k, func(r column.Row) error {
+			if _, ok := col.Get(r); ok {
+				return errProbe
+			}
+			return nil
+		})
+		rows2, keys2, count2 := w.dump(w.coll)
+		holders := 0
+		for o, ob := range rows2 {
+			if v, has := ob.vals[w.keyCol.ID]; has && string(v.B) == k {
+				holders++
+				_ = o
+			}
+		}
+		switch {
+		case err == nil:
+			w.notes = append(w.notes, fmt.Sprintf("KeyProbe: UpsertKey(%q) whose callback failed on the existing row %d returned nil", k, off))
+		case count2 != count0 || holders != 1 || keys2[k] != off:
+			w.notes = append(w.notes, fmt.Sprintf("KeyProbe: after a failed UpsertKey(%q) of the existing row %d: Count %d -> %d, %d live rows hold the key, the lookup reaches row %d", k, off, count0, count2, holders, keys2[k]))
+		}
+		rows, keys, count0 = rows2, keys2, count2
+	}
+}
+
+
+// sortProbe (end of a history with sorted indexes, model-free): ascending iteration over the rows
+// that hold NO value in the indexed column visits nothing, and over a single valued row visits
+// exactly that row - narrow selections, whatever offsets were reused before
+func (w *World) sortProbe() {
+	rows, _, _ := w.dump(w.coll)
+	for _, cp := range w.comps {
+		if cp.Kind != "sorted" {
+			continue
+		}
+		var visited []uint32
+		err := w.coll.Query(func(txn *column.Txn) error {
+			return txn.Without(cp.Target.Name).Ascend(cp.Name, func(i uint32) { visited = append(visited, i) })
+		})
+		w.stats.SortProbes++
+		if err == nil && len(visited) > 0 {
+			w.notes = append(w.notes, fmt.Sprintf("SortProbe: Ascend over the rows WITHOUT a value in %s visited %v (live rows: %d)", cp.Target.Name, visited, len(rows)))
+		}
+	}
+	// a NARROW selection of rows on reused offsets: many valued rows, a few of them deleted, rows
+	// without the value inserted until some take the freed offsets over (flagged in a column of
+	// their own); ascending over the flagged rows visits nothing
+	for _, cp := range w.comps {
+		if cp.Kind != "sorted" || !cp.Target.K.Stringy() || cp.Target.K == KEnum || cp.Target.K == KKey || w.keyed {
+			continue
+		}
+		if w.coll.CreateColumn("zprobe", column.ForBool()) != nil {
+			return
+		}
+		var valued []uint32
+		for i := 0; i < 400; i++ {
+			off, err := w.coll.Insert(func(r column.Row) error {
+				cp.Target.Set(r, Val{W: -1, B: []byte(fmt.Sprintf("p%03d", i))})
+				return nil
+			})
+			if err == nil {
+				valued = append(valued, off)
+			}
+		}
+		freed := map[uint32]bool{}
+		for i := 0; i < len(valued) && len(freed) < 8; i += 37 {
+			if w.coll.DeleteAt(valued[i]) {
+				freed[valued[i]] = true
+			}
+		}
+		reused := 0
+		for i := 0; i < 600 && reused < len(freed); i++ {
+			off, err := w.coll.Insert(func(r column.Row) error { r.SetBool("zprobe", true); return nil })
+			if err != nil {
+				break
+			}
+			if freed[off] {
+				reused++
+				delete(freed, off)
+				freed[off] = false
+			} else {
+				w.coll.QueryAt(off, func(r column.Row) error { r.SetBool("zprobe", false); return nil })
+			}
+		}
+		w.stats.SortProbes++
+		if reused == 0 {
+			w.stats.SortProbesNoReuse++
+		}
+		var visited []uint32
+		sel := 0
+		w.coll.Query(func(txn *column.Txn) error {
+			sel = txn.With("zprobe").Count()
+			return txn.Ascend(cp.Name, func(i uint32) { visited = append(visited, i) })
+		})
+		if len(visited) > 0 {
+			w.notes = append(w.notes, fmt.Sprintf("SortProbe: Ascend over %d selected rows on reused offsets, none of which holds a value in %s, visited %v", sel, cp.Target.Name, visited))
+		}
+		return
+	}
 }
